@@ -500,7 +500,15 @@ impl FormatSpec {
                         self.alternate_form,
                         true,
                     )),
-                    None => Ok(float::to_string(magnitude)),
+                    None => {
+                        let mut repr = float::to_string(magnitude);
+                        // the alternate form always shows a decimal point: "1e+16" -> "1.e+16"
+                        if self.alternate_form && !repr.contains('.') {
+                            let exponent_pos = repr.find('e').unwrap_or(repr.len());
+                            repr.insert(exponent_pos, '.');
+                        }
+                        Ok(repr)
+                    }
                 },
             },
         };
